@@ -107,6 +107,8 @@ pub enum Topo {
     /// number of probes
     Share(usize),
     ForEach,
+    /// from_iter over an instrumented iterator 0..len (None = unbounded)
+    FromIter(Option<usize>),
     /// a composed tree (see `Node`)
     Tree(Node),
 }
@@ -121,6 +123,7 @@ impl Topo {
             Topo::Flatten(_) => "flatten".into(),
             Topo::Share(_) => "share".into(),
             Topo::ForEach => "for_each".into(),
+            Topo::FromIter(_) => "from_iter".into(),
             Topo::Tree(_) => "tree".into(),
         }
     }
@@ -133,6 +136,8 @@ impl Topo {
             Topo::Flatten(n) => format!("flatten(outer with {} inners)", n),
             Topo::Share(n) => format!("share({} sinks)", n),
             Topo::ForEach => "for_each".into(),
+            Topo::FromIter(Some(n)) => format!("from_iter(0..{})", n),
+            Topo::FromIter(None) => "from_iter(0..)".into(),
             Topo::Tree(n) => format!("tree:{}", n.describe()),
         }
     }
@@ -336,6 +341,11 @@ pub fn build(topo: &Topo, pspecs: &[PuppetSpec], lens: &[usize], probe_specs: &[
                 let seen = Arc::clone(&seen);
                 callbag::for_each(move |x: i64| seen.lock().unwrap().push(x))(Arc::clone(&src));
             }));
+        },
+        Topo::FromIter(len) => {
+            let it = crate::pull::CountIter::new(0, 0, *len, Some(&world));
+            let out: Src<V> = Arc::new(callbag::from_iter(it));
+            mk_probes(&world, &op, &out, probe_specs, &mut probes, &mut subscribe);
         },
         Topo::Tree(node) => {
             let mut next_puppet = 0usize;
